@@ -304,6 +304,75 @@ func checkReaderDiscipline(c *Ctx, p *packages.Package) {
 		return false
 	})
 	c.Check("R19.4", "reader: end of input is latched only when the next byte is the sentinel and forward is not at a half boundary", token.NoPos, eofOK, "io.EOF is assigned outside the last branch of the boundary test chain")
+	// (b2) a buffer half is loaded once: the loads are guarded by state other than the forward pointer, which Retract moves back
+	loaders := map[string]bool{}
+	AllFuncDecls(p, func(fd *ast.FuncDecl) {
+		if fd.Recv == nil || recvName(fd.Recv.List[0].Type) != recv || fd.Body == nil {
+			return
+		}
+		ast.Inspect(fd.Body, func(n ast.Node) bool {
+			if call, ok := n.(*ast.CallExpr); ok {
+				if sel, ok := call.Fun.(*ast.SelectorExpr); ok && sel.Sel.Name == "Read" {
+					loaders[fd.Name.Name] = true
+				}
+			}
+			return true
+		})
+	})
+	nLoads, guardedLoads := 0, 0
+	var stack []ast.Node
+	ast.Inspect(nextB.Body, func(n ast.Node) bool {
+		if n == nil {
+			stack = stack[:len(stack)-1]
+			return true
+		}
+		stack = append(stack, n)
+		call, ok := n.(*ast.CallExpr)
+		if !ok {
+			return true
+		}
+		sel, ok := call.Fun.(*ast.SelectorExpr)
+		if !ok || !loaders[sel.Sel.Name] {
+			return true
+		}
+		nLoads++
+		// a dominating condition on a reader field other than the cursor / the buffer, reassigned once the load succeeded
+		for _, anc := range stack {
+			ifs, ok := anc.(*ast.IfStmt)
+			if !ok || ifs.Body.Pos() > call.Pos() || call.End() > ifs.Body.End() {
+				continue
+			}
+			guardField := ""
+			ast.Inspect(ifs.Cond, func(m ast.Node) bool {
+				if s2, ok := m.(*ast.SelectorExpr); ok && s2.Sel.Name != "forward" && s2.Sel.Name != "buff" && s2.Sel.Name != latch {
+					if v, isVar := info.Uses[s2.Sel].(*types.Var); isVar && v.IsField() {
+						guardField = s2.Sel.Name
+					}
+				}
+				return true
+			})
+			if guardField == "" {
+				continue
+			}
+			reassigned := false
+			ast.Inspect(ifs.Body, func(m ast.Node) bool {
+				if as, ok := m.(*ast.AssignStmt); ok && len(as.Lhs) == 1 {
+					if s2, ok := as.Lhs[0].(*ast.SelectorExpr); ok && s2.Sel.Name == guardField {
+						reassigned = true
+					}
+				}
+				return true
+			})
+			if reassigned {
+				guardedLoads++
+				break
+			}
+		}
+		return true
+	})
+	c.Check("R19.4", "reader: a buffer half is loaded once (each load is guarded by state that a retraction does not undo)", token.NoPos, nLoads >= 2 && guardedLoads == nLoads,
+		fmt.Sprintf("%d of %d loads in next() are guarded only by the position of the forward pointer: when forward arrives at a half boundary again after Retract, the next chunk overwrites the half that was just loaded and a buffer-half of input disappears", nLoads-guardedLoads, nLoads),
+		"an input longer than the buffer half with a token that begins on the last byte of a half")
 	// (c) Next: every byte read has its error returned immediately
 	var nextR *ast.FuncDecl
 	AllFuncDecls(p, func(fd *ast.FuncDecl) {
